@@ -9,6 +9,31 @@ the Go function loop by loop: the operation table (`loop1`, through `ops_tie`), 
 namespace AC.OptTie
 open AC.Gen.Program AC.GoPrim AC.BigPrim AC.ProgramTie P P.OptX
 
+/-- translated `pruneuses` (the in-place filter of opt.go) = filtering out the operations that use `i` -/
+theorem pruneuses_loop_tie (i : Int) : ∀ (ops ops0 acc : List GOp),
+    optpruneuses_loop1 ops ops0 i acc = some (acc ++ ops.filter (fun o => !(o.I == i || o.J == i))) := by
+  intro ops
+  induction ops with
+  | nil => intro ops0 acc; simp [optpruneuses_loop1]
+  | cons o ops ih =>
+    intro ops0 acc
+    simp only [optpruneuses_loop1, opUses, bind, Option.bind, pure, List.filter_cons]
+    by_cases h : (o.I == i || o.J == i) = true
+    · simp only [h, Bool.not_true, Bool.false_eq_true, if_false]
+      exact ih ops0 acc
+    · have hf : (o.I == i || o.J == i) = false := by simpa using h
+      simp only [hf, Bool.not_false, if_true]
+      have := ih ops0 (acc ++ [o])
+      simpa using this
+
+theorem pruneuses_tie (ops : List GOp) (i : Int) :
+    optpruneuses ops i = some (ops.filter (fun o => !(o.I == i || o.J == i))) := by
+  unfold optpruneuses
+  have hs : sliceTo ops 0 = some [] := by simp [sliceTo]
+  simp only [hs, bind, Option.bind]
+  simpa using pruneuses_loop_tie i ops ops []
+
+
 /-- the table as the translated code holds it -/
 def opsG (T : List (List Op)) : List (List GOp) := T.map toGs
 
@@ -237,7 +262,7 @@ theorem loop5_tie (c : List Int) (rm : List Int) (k : Nat) : ∀ (n l : Nat) (T 
     push_cast at hnext
     rw [hsw, ← hnext]
     have hprune : optpruneuses (toGs (T.getD l [])) (k : Int) = some (toGs (pruneUses (T.getD l []) k)) := by
-      rw [AC.BigintsTie.pruneuses_tie, toGs_pruneUses]
+      rw [pruneuses_tie, toGs_pruneUses]
     have hset : setIdx (opsG T) (l : Int) (toGs (pruneUses (T.getD l []) k)) = some (opsG T') :=
       setIdx_opsG T l _ hlt
     simp only [optOptimize_loop5, idx_opsG T l hlt, hprune, hset, bind, Option.bind,
